@@ -65,6 +65,10 @@ def run_task(pid, task, tier, scratch, seed):
         out["status"] = "undecided"
         out["undecided_reason"] = "engine B produced no result (build failure or time-out): " + r["out"][-600:]
         return out
+    # the test module must run to its end: a panic half way (or a missing expected check) means the remaining checks did not run
+    if r["rc"] != 0 and not any(nf for (_ev, nf) in r["checks"].values()):
+        out["status"] = "undecided"
+        out["undecided_reason"] = "engine B test module did not finish (exit %s): %s" % (r["rc"], r["out"][-600:])
     want = task.get("checks")
     for name, (ev, nf) in r["checks"].items():
         if want and not any(name.startswith(w) for w in want):
